@@ -707,7 +707,12 @@ def _exec(w, pop, changed_ok):
                 if diffs is None or any(_pyhash(a) != _pyhash(b) for a, b in diffs):
                     # some element changed to a value Python's own hash() tells apart
                     w.stats["fp_after_write"] += 1
-                    if x0 == x:
+                    # C16 promises that A write changing AN element to an unequal value is noticed.  When several elements
+                    # differ between the two reads (several writes, or one write of several cells) their contributions may
+                    # cancel - two cells on an anti-diagonal of a table exchanging their values do (DESIGN section 11,
+                    # observations): different contents with equal fingerprints, which no hash can exclude and the property
+                    # does not.  The clause therefore speaks when exactly ONE element differs (or the shape does).
+                    if x0 == x and (diffs is None or len(diffs) == 1):
                         kf = diffs is not None and all((_pyhash(a) - _pyhash(b)) % P61 == 0 for a, b in diffs)
                         w.findings.append(("C16-insensitive-KF1: " if kf else "C16-insensitive: ") + _insens(c0, cont))
                 elif not diffs and x0 != x:
